@@ -100,7 +100,7 @@ def ticks_record(d0, d1, m, pre=None):
         with guard.limit(60):
             d0, d1, ticks, labels = _observe_ticks(d0, d1, m, pre, rec)
     except Exception as ex:          # (includes guard.CallTimeout: a call did not return)
-        rec.update({"err": type(ex).__name__, "mant": 1, "Q": 1, "lo": 0, "hi": 0, "tq": [], "n": [], "lab": [], "lq": [], "lok": []})
+        rec.update({"err": type(ex).__name__, "mant": 1, "Q": 1, "lo": 0, "hi": 0, "tq": [], "n": [], "lab": [], "lq": [], "lok": [], "xlo": 0, "xhi": 0})
         return rec
     lo, hi = min(d0, d1), max(d0, d1)
     if len(ticks) >= 2:
@@ -131,6 +131,15 @@ def ticks_record(d0, d1, m, pre=None):
         "lab": labels, "lq": [q(readback(x)) if readback(x) is not None else 0 for x in labels],
         "lok": [0 if readback(x) is None else 1 for x in labels],
     })
+    # "inside the domain up to floating-point effects at the two ends": how far the outermost ticks lie beyond the ends, in
+    # thousandths of what float arithmetic can account for (ticks are built by repeated addition: one rounding of the magnitude
+    # of the end points per tick; four times that is allowed) - the integer units above cannot see anything below 1e-3 step
+    if ticks:
+        allowed = 4.0 * len(ticks) * math.ulp(max(abs(lo), abs(hi), abs(step)))
+        rec["xlo"] = int(min(10 ** 6, 1000.0 * max(0.0, lo - min(ticks)) / allowed))
+        rec["xhi"] = int(min(10 ** 6, 1000.0 * max(0.0, max(ticks) - hi) / allowed))
+    else:
+        rec["xlo"] = rec["xhi"] = 0
     return rec
 
 
